@@ -63,17 +63,17 @@ func (f *flow) reserve(dests []*link, limit int) bool {
 }
 
 type fanItem struct {
-	sub     *submit
-	dests   map[*link]bool // stable links that must receive it exactly once
-	never   map[*link]bool // links that must not receive it
+	sub   *submit
+	dests map[*link]bool // stable links that must receive it exactly once
+	never map[*link]bool // links that must not receive it
 }
 
 // fanOpt parametrises the fan-out scenario (shared by C11 and the node-level part of C09).
 type fanOpt struct {
-	manyOps     bool // hundreds of writes per link (beyond the 256 wrap-around)
-	rejected    bool // writers also issue writes that cannot be encoded
-	streamReq   bool // stream requests on; peers announce themselves as ArduPilot
-	check       func(e *env, stable, churn []*link, items [][]fanItem)
+	manyOps   bool // hundreds of writes per link (beyond the 256 wrap-around)
+	rejected  bool // writers also issue writes that cannot be encoded
+	streamReq bool // stream requests on; peers announce themselves as ArduPilot
+	check     func(e *env, stable, churn []*link, items [][]fanItem)
 }
 
 func c11Body() func(h []dsim.Rec) {
@@ -637,10 +637,10 @@ func (e *env) checkFanoutEx(stable, lossy, churn []*link, items [][]fanItem) {
 
 func init() {
 	register(&Prop{
-		ID:         "C11",
-		MaxSteps:   600000,
-		Horizon:    40 * 365 * 24 * time.Hour,
-		Body:       c11Body,
+		ID:       "C11",
+		MaxSteps: 600000,
+		Horizon:  40 * 365 * 24 * time.Hour,
+		Body:     c11Body,
 		Rule: "one evaluation = one simulated deployment: a real node with 1..3 endpoints and 1..6 stable channels (custom, TCP server, " +
 			"UDP server, TCP client, serial) plus churning TCP peers, 1..4 writer tasks issuing 1..160 tagged Write{Message,Frame}" +
 			"{All,To,Except} calls each (targets: stable, churning, closed, foreign (second real node) and nil channels), incoming traffic, " +
